@@ -127,6 +127,9 @@ func newBook(p *pkgFiles) *book {
 							if bl, ok := sp.Values[0].(*ast.BasicLit); ok && bl.Kind == token.INT {
 								b.consts[sp.Names[0].Name] = bl.Value
 							}
+							if src(sp.Values[0]) == "math.MaxUint32" {
+								b.consts[sp.Names[0].Name] = "maxU32"
+							}
 						}
 					}
 				}
@@ -1018,6 +1021,12 @@ func (c *bctx) assign(s *ast.AssignStmt, out *strings.Builder, ind string) {
 		if ce, ok := s.Rhs[0].(*ast.CallExpr); ok && src(ce.Fun) == "unsafe.Pointer" {
 			return
 		}
+		// `x = nil`: the zero value of the target's type
+		if id, ok := s.Rhs[0].(*ast.Ident); ok && id.Name == "nil" {
+			_, lt := c.expr(s.Lhs[0])
+			c.setPath(c.resolve(s.Lhs[0]), c.b.dflt(lt), out, ind)
+			return
+		}
 		// `m[k] = &local` stores the value of the local
 		r, _ := c.expr(s.Rhs[0])
 		c.setPath(c.resolve(s.Lhs[0]), r, out, ind)
@@ -1580,6 +1589,8 @@ var bookGroups = []bookGroup{
 		{"entityPool", "Len"}, {"entityPool", "Cap"},
 		{"bitPool", "getNew"}, {"bitPool", "Get"}, {"bitPool", "Recycle"}, {"bitPool", "Reset"},
 		{"intPool", "Recycle"}, {"intPool", "Reset"}}},
+	{"BookCache", "filter cache bookkeeping of cache.go", []bookFnKey{
+		{"cache", "getEntry"}, {"cache", "unregister"}, {"cache", "removeTable"}, {"cache", "Reset"}}},
 }
 
 func genBook(p *pkgFiles, files map[string]string) {
